@@ -20,7 +20,7 @@ META = {
     "outside": ["SHA-256/SHA-512 themselves (replaced by an injective recording hash)", "real Path.rglob / resolve with link chains (link -> link) and links whose text runs through themselves",
                 "timestamps, permissions, special files", "file_hashsum on unreadable files"],
     "stubs": ["numpy.cumproduct import shim", "_hash_alg['rec'] = recording hash (block_size 2)", "hashsums.open / hashsums.os.readlink rebound to the in-memory directory",
-              "FP(PurePosixPath) entries: is_file follows links, resolve() lexical; validated against a real temp directory by fidelity()"],
+              "FP(PurePosixPath) entries: is_file follows links, resolve() physical like pathlib (link chains followed; cycles outside the claim); validated against a real temp directory by fidelity()"],
     "assumptions": ["SHA-256 is injective on the inputs in question (content equality <=> digest equality)",
                     "pathlib.rglob yields every entry below the directory exactly once, in some order, without following directory symlinks"],
 }
